@@ -71,6 +71,18 @@ def run(cx):
                 cx.violation("%s: abstract code projection changes across marshal/unmarshal: src=%r" % (label, r["src"][:300]),
                              {"leg": "projection", "src": r["src"]})
             if strip(res["orig"]) != strip(res["reloaded"]):
+                # re-execute: a program whose ORIGINAL outcome varies from run to run is not evidence about the
+                # serialised form (that is C05's subject); the disagreement must show again
+                one = cx.path("re_%s_%s.ndjson" % (label, r["id"]))
+                vlib.write_ndjson(one, [{k: v for k, v in r.items() if k != "res"}])
+                one_out = cx.path("re_%s_%s.out.ndjson" % (label, r["id"]))
+                cx.run([lang, "roundtrip", "-in", one, "-out", one_out], timeout=600)
+                again = vlib.read_ndjson(one_out)[0]["res"]
+                if again.get("k") == "done" and (strip(again["orig"]) != strip(res["orig"]) or strip(again["orig"]) == strip(again["reloaded"])):
+                    cx.notes.append("%s case %s: original and reloaded run differed once, not again (original outcome stable: %s)" % (
+                        label, r["id"], strip(again["orig"]) == strip(res["orig"])))
+                    check_rows.append({"id": r["id"], "ast": r["ast"], "hoist": r.get("hoist", []), "obs": res["reloaded"]})
+                    continue
                 disagreements += 1
                 cx.violation("%s: reloaded code behaves differently from the original: src=%r original=%s reloaded=%s" % (
                     label, r["src"][:300], json.dumps(strip(res["orig"]))[:250], json.dumps(strip(res["reloaded"]))[:250]),
